@@ -75,6 +75,7 @@ func runC05(p *Program, r *Report) {
 	c05pair(p, r, env, "C05.pair")
 	c05leak(p, r, env, "C05.leak")
 	c05leaf(p, r, env, "C05.leaf")
+	cWriterHandle(p, r, "C05.handle")
 	c05msglock(p, r, "C05.msglock")
 	c05closeorder(p, r, "C05.closeorder")
 	c05noreacquire(p, r, env, "C05.noreacquire")
@@ -307,7 +308,8 @@ func c05pair(p *Program, r *Report, env *lockEnv, rule string) {
 			if strings.HasPrefix(l, "param:") {
 				continue
 			}
-			allowed := map[string]bool{"Conn.readUnlock|Conn.readMu": true, "msgWriter.Close|msgWriter.mu": true}
+			// msgWriterHandle.Close only forwards to msgWriter.Close (checked by C05.msglock: the handle closes once)
+			allowed := map[string]bool{"Conn.readUnlock|Conn.readMu": true, "msgWriter.Close|msgWriter.mu": true, "msgWriterHandle.Close|msgWriter.mu": true}
 			r.Check(rule+".wrapper", fname, "releases "+l+" for its caller", p.FuncPos(fn), allowed[fname+"|"+l],
 				"only the designated release wrappers (Conn.readUnlock for readMu, msgWriter.Close for the message lock) release a lock they did not acquire; any other function doing so takes the lock away from a caller that still uses the guarded state",
 				fname+" releases "+l+" without acquiring it; its callers lose the lock at the call site")
